@@ -61,6 +61,10 @@ theorem close_unpolled_leak_counterexample :
     cases n with
     | zero => rfl
     | succ n => rfl
+  | setWaker n w =>
+    cases n with
+    | zero => rfl
+    | succ n => rfl
 
 /-- F8d: io_uring driver on a kernel without the opcode (`IORING_OP_SOCKET` < 5.19): the blocking
 fallback adopts the created descriptor twice; the caller receives a descriptor that has already been
